@@ -37,6 +37,12 @@
 //!  K  12 keys x 5 callers x 3 waves concurrently, tasks of random short duration: outcomes never cross keys.
 //!  S  about 0.6 s of random arrival times around the completion instant on one Group (callers arriving before, at and after
 //!     completion/removal), fresh ids per round so that a stale call of an earlier round is recognised.
+//!  N  remaining entry points and key shapes: `Group::default()`, `work_dump_caller_info` (value, error, panic), the empty key, a
+//!     2,000-character key, keys that are prefixes of each other ("", "a", "ab") in flight at the same time with gated tasks (each
+//!     caller gets its own key's value), and nesting: the task of key "outer" itself calls `work` on key "inner" of the SAME
+//!     group (and a waiter joins "outer" meanwhile) - nobody may wait forever and everybody gets the value computed from the inner
+//!     flight; a WAITER call (not the owner) aborted mid-flight: owner and the other waiter still get the value, the key is free
+//!     afterwards.
 //!  W  (multi_thread, DEBUG on) forced window: the subscriber pauses a waiter inside `Call::get_future` at the event
 //!     "Adding to Call's Notify" (after it saw the empty result slot, before it registered with the notifier) for up to 400 ms
 //!     while the owner's task is released; the waiter must still get the value.  Skipped (with a note on stderr) if that event
@@ -651,6 +657,154 @@ async fn s_stress(ctx: String, flavor: Flavor, seed: u64, budget: Duration) -> W
     Ok(())
 }
 
+// ---------------------------------------------------------------- N: remaining entry points, key shapes, nesting
+async fn s_entry_points(ctx: String, flavor: Flavor) -> W {
+    let g: G = Arc::new(Group::default());
+    let t = |what: &str| format!("{ctx}: {what}");
+    // work_dump_caller_info: value, error, panic; empty and very long keys
+    let long_key = "k".repeat(2000);
+    for key in ["", "a", long_key.as_str()] {
+        let shown = if key.len() > 10 { format!("<{} characters>", key.len()) } else { format!("{key:?}") };
+        match timeout(CALLER_TIMEOUT, g.work_dump_caller_info(key, async { Ok::<usize, String>(7) })).await {
+            Ok(Ok(7)) => {},
+            Ok(other) => return Err(t(&format!("work_dump_caller_info(key {shown}, task returning 7) returned {other:?}"))),
+            Err(_) => return Err(t(&format!("work_dump_caller_info(key {shown}) is still waiting after 10 s"))),
+        }
+        match timeout(CALLER_TIMEOUT, g.work_dump_caller_info(key, async { Err::<usize, String>("boom-x".into()) })).await {
+            Ok(Err(SingleflightError::InternalError(e))) if e == "boom-x" => {},
+            Ok(Err(SingleflightError::WaiterInternalError(e))) if e.contains("boom-x") => {},
+            Ok(other) => return Err(t(&format!("work_dump_caller_info(key {shown}, task failing with boom-x) returned {other:?}"))),
+            Err(_) => return Err(t(&format!("work_dump_caller_info(key {shown}, failing task) is still waiting after 10 s"))),
+        }
+        match timeout(CALLER_TIMEOUT, g.work_dump_caller_info(key, async { if true { panic!("task panics (intended)") } else { Ok::<usize, String>(0) } })).await {
+            Ok(Err(SingleflightError::JoinError(_) | SingleflightError::OwnerPanicked)) => {},
+            Ok(other) => return Err(t(&format!("work_dump_caller_info(key {shown}, panicking task) returned {other:?}"))),
+            Err(_) => return Err(t(&format!("work_dump_caller_info(key {shown}, panicking task) is still waiting after 10 s"))),
+        }
+        match timeout(CALLER_TIMEOUT, g.work(key, async { Ok::<usize, String>(8) })).await {
+            Ok((Ok(8), true)) => {},
+            Ok(other) => return Err(t(&format!("after three finished flights on key {shown}, a further work(task returning 8) returned {other:?} (expected its own value as owner)"))),
+            Err(_) => return Err(t(&format!("work(key {shown}) after three finished flights is still waiting after 10 s"))),
+        }
+    }
+    // keys that are prefixes of each other, in flight together
+    let gate = Arc::new(Semaphore::new(0));
+    let started = Arc::new(AtomicUsize::new(0));
+    let mut handles = Vec::new();
+    for (i, key) in ["", "a", "ab", "ab ", "AB"].into_iter().enumerate() {
+        for c in 0..3usize {
+            let (g, gate, started) = (g.clone(), gate.clone(), started.clone());
+            handles.push((key, i, tokio::spawn(async move {
+                g.work(key, async move {
+                    started.fetch_add(1, Ordering::SeqCst);
+                    if let Ok(p) = gate.acquire().await { p.forget(); }
+                    Ok::<usize, String>(100 * i + c)
+                }).await
+            })));
+        }
+    }
+    let t0 = Instant::now();
+    while started.load(Ordering::SeqCst) < 5 && t0.elapsed() < CALLER_TIMEOUT {
+        tokio::task::yield_now().await;
+        if t0.elapsed() > Duration::from_millis(50) { tokio::time::sleep(Duration::from_millis(1)).await; }
+    }
+    settle(flavor).await;
+    let started_before = started.load(Ordering::SeqCst);
+    gate.add_permits(64);
+    let mut owners = [0usize; 5];
+    for (key, i, h) in handles {
+        match timeout(CALLER_TIMEOUT, h).await {
+            Err(_) => return Err(t(&format!("keys \"\", \"a\", \"ab\", \"ab \", \"AB\" in flight together, 3 callers each: a caller of key {key:?} is still waiting after 10 s"))),
+            Ok(Err(e)) => return Err(t(&format!("a caller of key {key:?} panicked: {e}"))),
+            Ok(Ok((Ok(v), owner))) if v / 100 == i => owners[i] += owner as usize,
+            Ok(Ok(other)) => return Err(t(&format!("keys \"\", \"a\", \"ab\", \"ab \", \"AB\" in flight together (tasks of key #i return 100*i + caller): a caller of key #{i} {key:?} received {other:?}"))),
+        }
+    }
+    if flavor == Flavor::Current && (started_before != 5 || owners != [1; 5]) {
+        return Err(t(&format!("five distinct keys with 3 parked callers each: {started_before} tasks were started before the gate opened, owners per key {owners:?} (expected one each)")));
+    }
+    // a WAITER (not the owner) is cancelled mid-flight: the owner and the other waiter are unaffected, the key is free afterwards
+    {
+        let gate = Arc::new(Semaphore::new(0));
+        let runs = Arc::new(AtomicUsize::new(0));
+        let mk = |val: usize| {
+            let (g, gate, runs) = (g.clone(), gate.clone(), runs.clone());
+            tokio::spawn(async move {
+                g.work("cancel", async move {
+                    runs.fetch_add(1, Ordering::SeqCst);
+                    if let Ok(p) = gate.acquire().await { p.forget(); }
+                    Ok::<usize, String>(val)
+                }).await
+            })
+        };
+        let owner = mk(600);
+        let t0 = Instant::now();
+        while runs.load(Ordering::SeqCst) < 1 && t0.elapsed() < CALLER_TIMEOUT {
+            tokio::task::yield_now().await;
+            if t0.elapsed() > Duration::from_millis(50) { tokio::time::sleep(Duration::from_millis(1)).await; }
+        }
+        let (w1, w2) = (mk(601), mk(602));
+        settle(flavor).await;
+        w1.abort();
+        let _ = timeout(CALLER_TIMEOUT, w1).await;
+        settle(flavor).await;
+        gate.add_permits(8);
+        let what = "owner + two waiters parked on a gated task of key \"cancel\", one WAITER call is aborted, the gate opens";
+        for (name, h) in [("the owner", owner), ("the remaining waiter", w2)] {
+            match timeout(CALLER_TIMEOUT, h).await {
+                Err(_) => return Err(t(&format!("{what}: {name} is still waiting after 10 s"))),
+                Ok(Err(e)) => return Err(t(&format!("{what}: {name} panicked: {e}"))),
+                Ok(Ok((Ok(v), _))) if (flavor == Flavor::Multi && (600..=602).contains(&v)) || v == 600 => {},
+                Ok(Ok(other)) => return Err(t(&format!("{what}: {name} received {other:?} (the owner's task returns 600)"))),
+            }
+        }
+        match timeout(CALLER_TIMEOUT, g.work("cancel", async { Ok::<usize, String>(603) })).await {
+            Ok((Ok(603), true)) => {},
+            Ok(other) => return Err(t(&format!("{what}; everybody returned; a later call of the key received {other:?} instead of its own value as owner"))),
+            Err(_) => return Err(t(&format!("{what}; a later call of the key is still waiting after 10 s"))),
+        }
+    }
+    // nesting on the same group
+    let inner_runs = Arc::new(AtomicUsize::new(0));
+    let mk_outer = |val: usize| {
+        let (g2, inner_runs) = (g.clone(), inner_runs.clone());
+        async move {
+            tokio::task::yield_now().await;
+            let (r, _) = g2.work("inner", async move {
+                inner_runs.fetch_add(1, Ordering::SeqCst);
+                tokio::task::yield_now().await;
+                Ok::<usize, String>(40)
+            }).await;
+            r.map(|v| v + val).map_err(|e| format!("{e:?}"))
+        }
+    };
+    let a = { let (g, f) = (g.clone(), mk_outer(1)); tokio::spawn(async move { g.work("outer", f).await }) };
+    let b = { let (g, f) = (g.clone(), mk_outer(2)); tokio::spawn(async move { g.work("outer", f).await }) };
+    let c = { let g = g.clone(); tokio::spawn(async move { g.work("inner", async { Ok::<usize, String>(50) }).await }) };
+    let mut got = Vec::new();
+    for (name, h) in [("outer caller 1", a), ("outer caller 2", b), ("direct inner caller", c)] {
+        match timeout(CALLER_TIMEOUT, h).await {
+            Err(_) => return Err(t(&format!("the task of key \"outer\" calls work(\"inner\") on the same group while a second caller joins \"outer\" and a third calls \"inner\" directly: {name} is still waiting after 10 s"))),
+            Ok(Err(e)) => return Err(t(&format!("nesting: {name} panicked: {e}"))),
+            Ok(Ok(r)) => got.push((name, r)),
+        }
+    }
+    for (name, (r, _owner)) in &got {
+        let fine = match (name, r) {
+            (&"direct inner caller", Ok(v)) => *v == 40 || *v == 50,
+            (_, Ok(v)) => [41usize, 42, 51, 52].contains(v),
+            _ => false,
+        };
+        if !fine {
+            return Err(t(&format!("nesting (outer = inner + 1 or + 2, inner = 40 or 50): {name} received {r:?}; all: {got:?}")));
+        }
+    }
+    if got[0].1 .0.as_ref().ok() != got[1].1 .0.as_ref().ok() && !(got[0].1 .1 && got[1].1 .1) {
+        return Err(t(&format!("nesting: the two callers of \"outer\" received different values although they are not both owners: {got:?}")));
+    }
+    Ok(())
+}
+
 // ---------------------------------------------------------------- W: forced window between the empty-slot check and the registration
 async fn s_forced_window(ctx: String) -> W {
     let st = hook();
@@ -723,6 +877,11 @@ fn run(seed: u64) -> W {
                 let ctx = format!("K [{base}]");
                 let c2 = ctx.clone();
                 run_on(&ctx, flavor, move || s_many_keys(c2, flavor, seed))?;
+            }
+            if on("N") {
+                let ctx = format!("N [{base}]");
+                let c2 = ctx.clone();
+                run_on(&ctx, flavor, move || s_entry_points(c2, flavor))?;
             }
             if on("S") {
                 let ctx = format!("S [{base}], seed {seed}");
